@@ -10,6 +10,7 @@ import (
 	"os"
 	"path/filepath"
 	"sort"
+	"sync"
 	"testing"
 
 	"pgregory.net/rapid"
@@ -254,6 +255,20 @@ func execC17(t *testing.T, sc *world.Scenario) (*oracle.Result, string) {
 			}
 		}
 	}
+	// the file replaced wholesale by well-formed unencrypted records
+	for i, forged := range [][]byte{
+		value,
+		[]byte(`[{"id":"` + k1 + `","vary":"","vary_resolved":{},"received_at":"2000-01-01T00:00:00Z"}]`),
+		[]byte(k1 + "\t2000-01-01T00:00:00Z\t2000-01-01T00:00:00Z\nHTTP/1.1 200 OK\r\nCache-Control: max-age=100000\r\nContent-Length: 6\r\n\r\nforged"),
+		[]byte("[]"), []byte("null"),
+	} {
+		if len(forged) == 0 {
+			continue
+		}
+		if !check("replace-with-plaintext", i, forged) {
+			return r, ""
+		}
+	}
 	for _, ext := range [][]byte{{0}, bytes.Repeat([]byte{0xaa}, 16), orig} {
 		if !check("append", len(ext), append(append([]byte(nil), orig...), ext...)) {
 			return r, ""
@@ -394,14 +409,77 @@ func TestC17Transport(t *testing.T) {
 		if gen.Pct(rt, "second", 30) {
 			sc.Steps = append(sc.Steps, mk("b"))
 		}
-		kind := gen.Pick(rt, "tamper", "file-flip", "file-flip", "file-trunc", "file-append", "file-zero")
+		kind := gen.Pick(rt, "tamper", "file-flip", "file-flip", "file-trunc", "file-append", "file-zero", "file-plaintext")
+		data := gen.Pick(rt, "ext", "x", "0123456789abcdef")
+		if kind == "file-plaintext" {
+			data = gen.Pick(rt, "forged",
+				"http://a.test/c17#0\t2000-01-01T00:00:00Z\t2000-01-01T00:00:00Z\nHTTP/1.1 200 OK\r\nCache-Control: max-age=100000\r\nContent-Length: 6\r\nX-Tok: 1\r\n\r\nforged",
+				`[{"id":"http://a.test/c17#0","vary":"","vary_resolved":{},"received_at":"2000-01-01T00:00:00Z"}]`)
+		}
 		sc.Steps = append(sc.Steps, world.Step{Op: "corrupt", Corrupt: &world.Corrupt{KeySel: rapid.IntRange(0, 1).Draw(rt, "file"), Kind: kind,
-			Arg: rapid.IntRange(0, 6000).Draw(rt, "pos"), Data: gen.Pick(rt, "ext", "x", "0123456789abcdef")}})
+			Arg: rapid.IntRange(0, 6000).Draw(rt, "pos"), Data: data}})
 		sc.Steps = append(sc.Steps, mk("c"))
 		if gen.Pct(rt, "again", 50) {
 			sc.Steps = append(sc.Steps, mk("d"))
 		}
 		return sc
+	}
+	RunCheck(t, c)
+}
+
+// TestC17Nonce: concurrent Sets of one value must all use different nonces (file prefixes) and
+// produce different ciphertexts.
+func TestC17Nonce(t *testing.T) {
+	c := checkC17
+	c.Exec = func(t *testing.T, sc *world.Scenario) (*oracle.Result, string) {
+		r := oracle.NewResult()
+		var cs c17Case
+		if err := json.Unmarshal(sc.Case, &cs); err != nil {
+			return r, err.Error()
+		}
+		c17Dir++
+		dir := filepath.Join(world.ScratchRoot(), fmt.Sprintf("c17n-%d", c17Dir))
+		_ = os.MkdirAll(dir, 0o755)
+		defer os.RemoveAll(dir)
+		conn, err := c17Open(cs.Path, dir, aesKey(cs.KeyLen, cs.Seed), true)
+		if err != nil {
+			return r, err.Error()
+		}
+		value := world.ExpandValue(cs.ValLen, cs.Seed)
+		const workers, per = 16, 25
+		var wg sync.WaitGroup
+		for w := 0; w < workers; w++ {
+			wg.Add(1)
+			go func(w int) {
+				defer wg.Done()
+				for i := 0; i < per; i++ {
+					_ = conn.Set(fmt.Sprintf("http://a.test/n/%d/%d#0", w, i), value)
+				}
+			}(w)
+		}
+		wg.Wait()
+		seen := map[string]string{}
+		files := filesUnder(dir)
+		r.Evals = len(files)
+		for _, f := range files {
+			b, _ := os.ReadFile(f)
+			if len(b) < 12 {
+				continue
+			}
+			n := string(b[:12])
+			if other, dup := seen[n]; dup {
+				r.Fail("C17", "nonce-reused", -1, "%d concurrent writers: files %s and %s start with the same 12-byte nonce (identical ciphertext: %v)", workers, filepath.Base(other), filepath.Base(f), func() bool { o, _ := os.ReadFile(other); return bytes.Equal(o, b) }())
+				return r, ""
+			}
+			seen[n] = f
+		}
+		r.NonTrivial = len(files) >= workers*per/2
+		r.NTKeys = append(r.NTKeys, fmt.Sprintf("nonce/%s/%d/%d", cs.Path, cs.ValLen, cs.Seed))
+		return r, ""
+	}
+	c.Gen = func(rt *rapid.T) *world.Scenario {
+		return mkC17(c17Case{Kind: "nonce", Path: gen.Pick(rt, "path", "option", "dsn-on"), KeyLen: gen.Pick(rt, "klen", 16, 32),
+			ValLen: gen.Pick(rt, "vlen", 0, 16, 1000), Seed: uint64(rapid.IntRange(1, 1<<30).Draw(rt, "seed"))})
 	}
 	RunCheck(t, c)
 }
